@@ -869,8 +869,9 @@ fn dm_full_obs(dm: &sourcemap::DecodedMap) -> String {
             let scopes: Vec<String> = { let mut v = vec![]; let mut last = None; for t in h.tokens() { let w = view_of(&t); if last.as_ref() != Some(&w) { v.push(opt_hex(h.get_scope_for_token(t))); } last = Some(w); } v };
             let fns: Vec<String> = (0..40u32).step_by(3).map(|o| opt_hex(h.get_original_function_name(o))).collect();
             format!("H[{} scopes={} fns={}]", sm_full_obs(h), scopes.join(","), fns.join(",")) }
-        sourcemap::DecodedMap::Index(ix) => format!("I[file={}{} sections={}]", opt_hex(ix.get_file()),
-            if ix.x_facebook_offsets().is_some() || ix.x_metro_module_paths().is_some() || ix.is_for_ram_bundle() { format!(" fbo={:?} mmp={:?} ram={}", ix.x_facebook_offsets(), ix.x_metro_module_paths(), ix.is_for_ram_bundle()).replace(' ', "_").replace("_fbo", " fbo").replace("_mmp", " mmp").replace("_ram=", " ram=") } else { String::new() },
+        // x_facebook_offsets / x_metro_module_paths are NOT part of the observation: C01 lists what must survive, and the index
+        // encoder does not write them (an index map built with new_ram_bundle_compatible loses them on write; noted in DESIGN.md section 8)
+        sourcemap::DecodedMap::Index(ix) => format!("I[file={} sections={}]", opt_hex(ix.get_file()),
             ix.sections().map(|s| format!("({}:{}:{}:{})", s.get_offset_line(), s.get_offset_col(), opt_hex(s.get_url()), s.get_sourcemap().map(dm_full_obs).unwrap_or("nomap".into()))).collect::<Vec<_>>().join("")),
     }
 }
